@@ -78,7 +78,7 @@ def norm_prog(p):
 
 def gen_neg_cases(tier, seed):
     """family `negfam` (gen/c07_neg.py): every second program under ascent_par!"""
-    n = 32 if tier == "quick" else 160
+    n = 32 if tier == "quick" else 240
     cases = []
     for k in range(n):
         rng = lib.rng_for(seed, PROP, "negfam%d" % k)
@@ -90,7 +90,7 @@ def gen_neg_cases(tier, seed):
 
 def gen_cases(tier, seed):
     rng = lib.rng_for(seed, PROP)
-    n = 66 if tier == "quick" else 880       # (+ 160 programs of the family negfam: thorough stays within its 20 min)
+    n = 66 if tier == "quick" else 1000
     cases = []
     for k in range(n):
         p = G.gen_program(rng)
